@@ -214,8 +214,52 @@ pub fn world_b_general(property: &str, scenario: &str, seed: u64, run: u64, sc: 
             _ => true,
         });
     }
+    if !sc.ideal {
+        let eps: Vec<usize> = std::iter::once(0).chain(topo.clients.iter().cloned()).collect();
+        socket_faults(&mut plan, seed, run, &eps, if sc.heal { sc.fault_until_us } else { sc.horizon_us });
+    }
     plan.params.insert("short_ch".into(), short_ch as f64);
     plan.end_us = sc.horizon_us;
+    plan.sort();
+    plan
+}
+
+/// Failing system calls and a full receive buffer (swarm style: most runs have none): `send_to`
+/// fails for the next few datagrams (they are lost before reaching the wire), `recv_from` fails a
+/// few times (uflow stops draining its socket for that step; nothing is lost), and for a while
+/// the socket buffer holds only a few datagrams (what arrives beyond that is dropped). All before
+/// `until_us`. Drawn from a generator of their own so that the rest of the plan does not depend
+/// on them.
+pub fn socket_faults(plan: &mut Plan, seed: u64, run: u64, eps: &[usize], until_us: u64) {
+    let mut r = Rng::keyed(&[seed, run, 0x50c4_e7]);
+    if until_us < 1_000_000 || eps.is_empty() {
+        return;
+    }
+    if r.chance(0.25) {
+        for _ in 0..r.range(1, 8) {
+            let ep = *r.pick(eps);
+            let (recv, send) = match r.below(3) {
+                0 => (r.range(1, 4) as u32, 0),
+                1 => (0, r.range(1, 12) as u32),
+                _ => (r.range(1, 3) as u32, r.range(1, 6) as u32),
+            };
+            plan.push(r.range(100_000, until_us), r.u32() | 1, Op::SockErr { ep, recv, send });
+        }
+    }
+    if r.chance(0.15) {
+        let ep = *r.pick(eps);
+        let t0 = r.range(100_000, until_us);
+        let t1 = (t0 + r.log_range(10_000, 5_000_000)).min(until_us);
+        plan.push(t0, r.u32() | 1, Op::SockCap { ep, cap: *r.pick(&[1u32, 2, 4, 16]) });
+        plan.push(t1, r.u32() | 1, Op::SockCap { ep, cap: u32::MAX });
+    }
+}
+
+/// The same for a finished plan: every real Client and Server, until the `heal` mark (or the end).
+pub fn with_socket_faults(mut plan: Plan, seed: u64, run: u64) -> Plan {
+    let eps: Vec<usize> = plan.endpoints.iter().enumerate().filter(|(_, e)| matches!(e.kind, EndpointKind::Client { .. } | EndpointKind::Server { .. })).map(|(i, _)| i).collect();
+    let until = plan.timeline.iter().find(|t| matches!(&t.op, Op::Mark { name } if name == "heal")).map_or(plan.end_us, |t| t.t_us);
+    socket_faults(&mut plan, seed, run, &eps, until);
     plan.sort();
     plan
 }
